@@ -76,6 +76,12 @@ def check(ctx, config, rule, adt_suffix, floor):
             continue
         e = same[0]
         bad = None
+        # String: hashing and formatting are defined on `str` (a byte slice hashes / prints differently): the forwarded impl must be str's
+        if adt_suffix.endswith('string::String') and tr.split('::')[-1] in ('Hash', 'Display', 'Debug'):
+            ce = e.callee or ''
+            if not (' for str>' in ce or ce.startswith('<str as ')):
+                ctx.violation(rule, fn, 'forward-type', '%s must forward to the %s impl of `str` (std hashes / formats a String as its str), it calls %s' % (fn, tr.split('::')[-1], ce[-70:]), e.span)
+                continue
         for k, a in enumerate(e.args, start=1):
             if k <= len(ins) and full_view(a, k):
                 continue
